@@ -74,6 +74,21 @@ def unbuild(o, ast, params):
     return ('unres', o.ctype)
 
 
+def named_leaves(t):
+    k = t[0]
+    if k == 'array':
+        return named_leaves(t[6])
+    if k == 'list':
+        return named_leaves(t[3])
+    if k == 'map':
+        return named_leaves(t[2]) + named_leaves(t[3])
+    if k == 'named':
+        return [t[1]]
+    if k == 'fund':
+        return ['<' + t[1] + '>']
+    return ['-']
+
+
 def coq_ty(t):
     k = t[0]
     if k == 'varargs':
@@ -163,6 +178,13 @@ def type_codec(ck, tier, seed):
         ck.count_case(case, nontrivial=t[0] in ('array', 'list', 'map'), kind='type:' + t[0])
         if frag2 != frag:
             ck.failing_input('a type written to GIR, read back and written again is not the same XML', case, detail=dict(written=frag, rewritten=frag2))
+        # a type of ANOTHER namespace is read back as that type (the own namespace's prefix is the only one the writer may drop)
+        l1, l2 = named_leaves(t), named_leaves(unbuild(o2, ast, fn.parameters))
+        for a_, b_ in zip(l1, l2):
+            if '.' in a_ and not a_.startswith(NSNAME + '.') and a_ != b_:
+                ck.failing_input('a type of another namespace, written to GIR and read back, names another definition', case,
+                                 detail=dict(written_type=a_, read_back=b_, xml=frag))
+                break
         items.append('(%d, %s, %s, Some %s)' % (len(cases), coq_ty(t), coq_xt(root[0]), coq_ty(unbuild(o2, ast, fn.parameters))))
         cases.append(case)
     # elements of other origin: the reader's answer, or that it raises
